@@ -18,7 +18,7 @@ import numpy as np
 import pandas as pd
 
 from copsim import obs, zoo
-from copsim.core import Ctx, outcome, outcome_class
+from copsim.core import Ctx, derive_seed, outcome, outcome_class
 from copsim.seams import Poison, sterile
 
 PROPERTY = 'C19'
@@ -159,6 +159,13 @@ def _data(rng, kind, what=None):
     if kind == 'gmv':
         sp = zoo.rand_table_spec(rng, 2, 4, 30, 80, constant_p=0.3 if what == 'const' else 0.05)
         sp['what'] = 'const' if any(m.startswith('constant') for m in sp['margs']) else 'good'
+        # the fits of one history arrive in different containers and under different labels
+        # (derived from the table's own seed: the generator's PRNG is not consulted)
+        h = derive_seed('container', sp['seed'], sp['n'])
+        if h % 10 < 3:
+            sp['container'] = 'ndarray'
+        elif h % 10 < 5:
+            sp['names'] = ['z%d' % (len(sp['margs']) - i) for i in range(len(sp['margs']))]
         return sp
     sp = zoo.rand_table_spec(rng, 2, 6, 40, 70, constant_p=0.0,
                              margs=['normal', 'gamma', 'beta', 'uniform'],
@@ -280,8 +287,8 @@ def _make_data(spec):
         return pd.DataFrame({'c0': [1.0, 2.0, 3.0, 4.0], 'c1': ['x', 'y', 'z', 'w'],
                              'c2': [0.5, 0.1, 0.9, 0.3]})
     data = zoo.gen_data(spec)
-    if k == 'uni':
-        return data
+    if k == 'table' and spec.get('container') == 'ndarray':
+        return data.to_numpy().copy()        # the caller's own, writable array
     return data
 
 
